@@ -25,6 +25,8 @@ use super::shim::*;
 use specs::*;
 use specs::vbv::*;
 use anyhow::Result;
+use core::marker::PhantomData;
+use std::collections::HashMap;
 type DatagramPacket = (BytesMut, Address);
 broadcast use axiom_v4_len, axiom_v6_len, axiom_string_utf8, axiom_ascii_utf8, axiom_unhex_len, axiom_string_empty, axiom_seal_len, axiom_open_seal, axiom_open_unique, axiom_md5_len, axiom_sha256_len, axiom_vkdf_len, lemma_path_view1, lemma_path_view3, axiom_ecb_inverse, lemma_be_bytes_len_b;
 //@include ../common_cipher.rs
@@ -33,6 +35,7 @@ broadcast use axiom_v4_len, axiom_v6_len, axiom_string_utf8, axiom_ascii_utf8, a
 //@include ../parts/vaddr.rs
 //@include ../parts/vbody.rs
 //@include ../parts/vhead.rs
+//@include ../parts/config.rs
 //@include ../parts/vkeys.rs
 } // verus!
 fn main() {}
